@@ -190,7 +190,8 @@ def print_assumptions(prop_id: str, module: str, theorems):
         if 'Closed under the global context' in txt:
             res[name] = 'closed'
         else:
-            axs = re.findall(r'^([A-Za-z_][\w\.\']*)\s*:', txt, re.M)
+            axs = [a for a in re.findall(r'^([A-Za-z_][\w\.\']*)\s*:', txt, re.M)
+                   if a not in ('Axioms', 'Section', 'Variables', 'Opaque', 'Transparent')]   # header lines of the output
             res[name] = axs or [txt.strip()]
     return res, out
 
